@@ -93,6 +93,8 @@ class Qasm2Module(QasmModule):
             Union[str, Qasm3Module]: The module in openqasm3 format.
         """
         qasm_program = deepcopy(self._original_program)
+        # the module's current program: transformations applied so far are part of it
+        qasm_program.statements = deepcopy(self._statements)
         # replace the include with stdgates.inc
         for stmt in qasm_program.statements:
             if isinstance(stmt, Include) and stmt.filename == "qelib1.inc":
